@@ -250,7 +250,8 @@ ITEMS = {
 
     'begin_transaction': dict(
         file=_F, path='impl Database::fn begin_transaction', ret='res',
-        rewrites=[('re', r'(?s)let catalog = &self\.catalog\.clone\(\);\s*self\.lifecycle\s*\.transaction_manager_mut\(\)\s*\.begin_transaction\(catalog, &self\.tables\)\?;', 'self.tm_begin()?;', 1),
+        # the TransactionManager call, with or without the local copy of the catalog, as a statement (`?;`) or as the tail expression
+        rewrites=[('re', r'(?s)(?:let catalog = &self\.catalog\.clone\(\);\s*)?self\s*\.lifecycle\s*\.transaction_manager_mut\(\)\s*\.begin_transaction\((?:catalog|&self\.catalog), &self\.tables\)', 'self.tm_begin()', 1),
                   ('re', r'self\.operations\.record_index_definitions\(\);', 'self.record_index_definitions();', 1)],
         contract='''
         ensures
